@@ -211,6 +211,8 @@ func checkC13(c *Check) {
 		ruleXXHConsumption(c, p, "R13.10")
 		c.RuleDoc["R13.11"] = "the lazy initialisation in Write is governed by the running length being 0 alone"
 		ruleXXHLazyInit(c, p, "R13.11")
+		c.RuleDoc["R13.13"] = "= R02.7/R08.13: what the content hash will read is never the caller's buffer once Write has returned (in-place compression only in sequential mode)"
+		ruleDirectWrite(c, p, "R13.13")
 		c.RuleDoc["R13.12"] = "= R09.3 (content part): what is fed to the content hash is the uncompressed source of the block being written, recorded unconditionally by Compress"
 		c.only(func(k string) bool { return strings.HasPrefix(k, "Write#contentchecksum") }, func() { ruleChecksumCoverage(c, p, "R13.12") })
 	}
